@@ -119,7 +119,10 @@ class FakeServiceInfo:
             return False
         self._v4 = [ip_address(x) for x in sc.get("v4", [])]
         self._v6 = [ip_address(x) for x in sc.get("v6", [])]
-        return bool(self._v4 or self._v6)
+        # python-zeroconf returns whether the service info is COMPLETE (TXT seen, ...), not whether addresses were
+        # learnt: the resolver asks only for the A/AAAA records of `server`, so the result is normally False even
+        # though the addresses are there ("complete": true scripts the other case)
+        return bool(self._v4 or self._v6) and bool(sc.get("complete", False))
 
     def ip_addresses_by_version(self, version):
         n = getattr(version, "name", str(version))
